@@ -290,7 +290,7 @@ Section Vol.
   Qed.
 
   Lemma vnl_W (p : str) : volume_name_len Windows (W p) = 2.
-  Proof. unfold W, vol. cbn. rewrite Hd. reflexivity. Qed.
+  Proof. reflexivity. Qed.
 
   Theorem clean_W (p : str) : p <> [] -> okstr p ->
     clean Windows (W p) = W (clean Linux p) /\ okstr (clean Linux p).
@@ -451,7 +451,7 @@ Section Vol2.
 
   Lemma is_abs_W (r : str) : is_abs Windows (W (SLASH :: r)) = true.
   Proof.
-    unfold is_abs. rewrite (vnl_W d Hd). cbn [Nat.eqb].
+    unfold is_abs. rewrite (vnl_W d). cbn [Nat.eqb].
     change (nthb (W (SLASH :: r)) 0) with d.
     assert (Hs : is_slash d = false).
     { unfold is_slash. destruct (d_not_slash d Hd) as [H1 H2].
@@ -527,15 +527,14 @@ Definition relstr (t : str) : Prop := match t with [] => True | c :: _ => c <> S
 
 Lemma vnl_rel (t : str) : okstr t -> relstr t -> volume_name_len Windows (mp t) = 0.
 Proof.
-  intros Hok Hrel. unfold volume_name_len. rewrite map_length.
-  destruct (Nat.ltb (length t) 2) eqn:El; [reflexivity|].
-  rewrite !nthb_map, phi_eqb_COLON.
-  destruct (okstr_nthb 1 Hok) as (_ & Hc & _). destruct (N.eqb_spec (nthb t 1) COLON); [contradiction|]. cbn [andb].
+  intros Hok Hrel. unfold volume_name_len. rewrite map_length, !nthb_map, phi_eqb_COLON.
+  destruct (okstr_nthb 1 Hok) as (_ & Hc & _). destruct (N.eqb_spec (nthb t 1) COLON); [contradiction|].
+  rewrite andb_false_r.
   destruct t as [|c0 t']; [reflexivity|]. cbn [relstr] in Hrel.
   assert (Hs : is_slash (phi (nthb (c0 :: t') 0)) = false).
   { rewrite is_slash_phi. change (nthb (c0 :: t') 0) with c0.
     inversion Hok as [|? ? (H1 & _) _]; subst. rewrite (is_slash_ok H1). apply N.eqb_neq. exact Hrel. }
-  rewrite Hs, andb_false_r. reflexivity.
+  rewrite Hs. cbn [negb]. rewrite orb_true_r. reflexivity.
 Qed.
 
 Lemma is_abs_rel (t : str) : okstr t -> relstr t -> is_abs Windows (mp t) = false /\ is_abs Linux t = false.
